@@ -107,6 +107,28 @@ impl<'a> DocGen<'a> {
                 6 => {
                     lines.push(format!("> {}", self.line()));
                     lines.push(format!("> {}", self.line()));
+                    // lists, a heading and a block reference inside the quote
+                    match self.rng.below(4) {
+                        0 => {
+                            lines.push(">".into());
+                            lines.push(format!("> - {}", self.line()));
+                            lines.push(format!("> - {}", self.line()));
+                        }
+                        1 => {
+                            lines.push(">".into());
+                            self.n += 1;
+                            let dest = format!("t{}", self.n);
+                            self.dests.push(dest.clone());
+                            lines.push(format!("> [{}]({})", self.word(), dest));
+                        }
+                        2 => {
+                            lines.push(">".into());
+                            lines.push(format!("> # {}", self.word()));
+                            lines.push(">".into());
+                            lines.push(format!("> {}", self.word()));
+                        }
+                        _ => {}
+                    }
                 }
                 _ => {
                     lines.push("```".into());
@@ -331,9 +353,10 @@ impl Check for C13 {
             };
             ev += 1;
             let kinds: Vec<String> = acts.iter().filter_map(|a| a["kind"].as_str().map(|s| s.to_string())).collect();
-            let in_list = matches!(block.chain.first(), Some(mdscan::Cont::Item(..)));
-            let is_heading = matches!(block.kind, AKind::Heading(_)) && block.chain.is_empty();
-            let is_ref = block.links.first().map(|&l| scan.links[l].block_ref).unwrap_or(false) && block.chain.is_empty();
+            // the block that covers the line is the innermost one: inside quotes too
+            let in_list = block.chain.iter().any(|c| matches!(c, mdscan::Cont::Item(..)));
+            let is_heading = matches!(block.kind, AKind::Heading(_)) && !in_list;
+            let is_ref = block.links.first().map(|&l| scan.links[l].block_ref).unwrap_or(false);
             let has = |k: &str| kinds.iter().any(|x| x == k);
             let mut bad = vec![];
             if in_list != has("refactor.rewrite.list.type") {
@@ -342,7 +365,7 @@ impl Check for C13 {
             if is_heading != has("refactor.rewrite.section.list") {
                 bad.push(format!("section-to-list offered={} but line is{} a heading", has("refactor.rewrite.section.list"), if is_heading { "" } else { " not" }));
             }
-            if is_ref != has("refactor.inline.reference.quote") && !in_list && !matches!(block.chain.first(), Some(mdscan::Cont::Quote(_))) {
+            if is_ref != has("refactor.inline.reference.quote") {
                 bad.push(format!("inline actions offered={} but line is{} a block reference", has("refactor.inline.reference.quote"), if is_ref { "" } else { " not" }));
             }
             if !bad.is_empty() && shown < 4 {
